@@ -2,6 +2,7 @@ package props
 
 import (
 	"fmt"
+	"math"
 	"sort"
 	"strings"
 	"sync/atomic"
@@ -90,6 +91,22 @@ func boolI(b bool) int {
 }
 
 const c11Expr = "(+ (* a 1) (* b 10) (* c 100) (* d 1000))"
+
+// two variables as the two operands of one operator (fast path when
+// FastEvaluation is on), and the same variable twice
+var c11Pairs = []struct {
+	src  string
+	want func(b [4]int64) int64
+}{
+	{"(- a b)", func(b [4]int64) int64 { return b[0] - b[1] }},
+	{"(+ (- c a) (* b b) (- b c))", func(b [4]int64) int64 { return b[2] - b[0] + b[1]*b[1] + b[1] - b[2] }},
+	{"(if (= a b) (- a c) (- c a))", func(b [4]int64) int64 {
+		if b[0] == b[1] {
+			return b[0] - b[2]
+		}
+		return b[2] - b[0]
+	}},
+}
 
 func c11(r *rep.Run) {
 	r.SetBudget(120e9)
@@ -244,6 +261,47 @@ func c11(r *rep.Run) {
 			r.Sample(10, map[string]interface{}{"layout": l.key()})
 		}
 	})
+	// pure undefined-variable mode: no name is registered, every variable is resolved by name
+	for _, b := range c11Bindings {
+		vals := map[string]interface{}{"a": b[0], "b": b[1], "c": b[2], "d": b[3]}
+		for _, optOff := range []bool{false, true} {
+			cfg := eval.NewConfig(eval.EnableUndefinedVariable)
+			if optOff {
+				eval.Optimizations(false)(cfg)
+			}
+			srcs := []string{c11Expr}
+			wants := []int64{b[0] + 10*b[1] + 100*b[2] + 1000*b[3]}
+			for _, pr := range c11Pairs {
+				srcs = append(srcs, pr.src)
+				wants = append(wants, pr.want(b))
+			}
+			for i, src := range srcs {
+				e, err := eval.Compile(cfg, src)
+				if err != nil {
+					r.Violate("compile", "undef", sprintf("%s does not compile in undefined-variable mode: %v", src, err), nil)
+					continue
+				}
+				for _, mode := range []string{"Eval", "TryEval"} {
+					var got eval.Value
+					var gerr error
+					p, site := drive.Fence(func() {
+						ctx := eval.NewCtxFromVars(cfg, vals)
+						if mode == "Eval" {
+							got, gerr = e.Eval(ctx)
+						} else {
+							got, gerr = e.TryEval(ctx)
+						}
+					})
+					atomic.AddInt64(&evals, 1)
+					if p != nil {
+						r.Violate("eval-panic", site+"undef", sprintf("%s of %s in undefined-variable mode panics: %v", mode, src, p), nil)
+					} else if gerr != nil || got != eval.Value(wants[i]) {
+						r.Violate("wrong-variable", "undef"+mode, sprintf("%s of %s with no registered names (optimisations off: %v), binding %v: %v/%v instead of %d", mode, src, optOff, b, got, gerr, wants[i]), nil)
+					}
+				}
+			}
+		}
+	}
 	c11RegVarAndOp(r, &evals)
 	c11Types(r, &evals)
 	r.Add(int64(len(seen)), transitions+evals, evals, evals+transitions, nontrivial)
@@ -339,6 +397,40 @@ func c11EvalLayout(r *rep.Run, l c11layout, hist []string, undef bool, n *int64)
 				}
 			}
 		}
+		// two-variable operators, optimisations on (default) and off
+		for _, pr := range c11Pairs {
+			for _, optOff := range []bool{false, true} {
+				cfg2 := eval.CopyConfig(cfg)
+				if optOff {
+					eval.Optimizations(false)(cfg2)
+				}
+				e2, err := eval.Compile(cfg2, pr.src)
+				if err != nil {
+					r.Violate("compile", "c11pair", sprintf("%s does not compile under layout {%s}: %v", pr.src, l.key(), err), nil)
+					continue
+				}
+				for _, c := range ctors {
+					for _, mode := range []string{"Eval", "TryEval"} {
+						var got eval.Value
+						var gerr error
+						p, site := drive.Fence(func() {
+							if mode == "Eval" {
+								got, gerr = e2.Eval(c.mk())
+							} else {
+								got, gerr = e2.TryEval(c.mk())
+							}
+						})
+						atomic.AddInt64(n, 1)
+						if p != nil {
+							r.Violate("eval-panic", site+c.name, sprintf("%s of %s through %s panics: %v", mode, pr.src, c.name, p), nil)
+						} else if gerr != nil || got != eval.Value(pr.want(b)) {
+							r.Violate("wrong-variable", "pair"+c.name+mode, sprintf("%s of %s through %s under layout {%s} (undefined mode %v, optimisations off %v): %v/%v instead of %d", mode, pr.src, c.name, l.key(), undef, optOff, got, gerr, pr.want(b)),
+								map[string]interface{}{"layout": l.key(), "history": hist, "expression": pr.src, "binding": fmt.Sprint(b)})
+						}
+					}
+				}
+			}
+		}
 		// package-level Eval with the config extended and extra unrelated bindings
 		for rep := 0; rep < 6; rep++ {
 			var got eval.Value
@@ -426,6 +518,13 @@ func c11Types(r *rep.Run, n *int64) {
 	addInt("time.Time(before epoch, zone)", tNeg, tNeg.Unix())
 	addInt("time.Duration", 90*time.Second+500*time.Millisecond, 90)
 	addInt("time.Duration(negative)", -3*time.Hour, -10800)
+	addInt("time.Duration(200 days + 999999999ns)", 200*24*time.Hour+999999999*time.Nanosecond, 200*24*3600)
+	addInt("time.Duration(max)", time.Duration(math.MaxInt64), math.MaxInt64/1000000000)
+	addInt("time.Duration(min)", time.Duration(math.MinInt64), math.MinInt64/1000000000)
+	addInt("time.Duration(-1ns)", -time.Nanosecond, 0)
+	addInt("time.Duration(10000 days - 1ns)", 10000*24*time.Hour-time.Nanosecond, 10000*24*3600-1)
+	addInt("time.Time(year 9999)", time.Date(9999, 12, 31, 23, 59, 59, 999999999, time.UTC), time.Date(9999, 12, 31, 23, 59, 59, 0, time.UTC).Unix())
+	addInt("time.Time(year 1)", time.Date(1, 1, 1, 0, 0, 0, 0, time.UTC), -62135596800)
 	cases = append(cases,
 		tc{"[]int", []int{3, -4, 5}, "(and (in -4 v) (not (in 4 v)) (overlap v (9 5)))"},
 		tc{"[]int32", []int32{3, -4, 5}, "(and (in -4 v) (not (in 4 v)) (overlap v (9 5)))"},
